@@ -723,4 +723,8 @@ func init() {
 		}, Run: heapRun})
 	Register(&Suite{Name: "heap.members", Prop: []string{"C13"}, Fixed: heapMembersFixed,
 		Gen: func(r *rand.Rand) Case { return heapGenOps(r, heapEvent, true) }, Run: heapRun})
+	// the same cases against a model in which User.Channels / Channel.Users copy (the code after
+	// notes/proposed-fixes/member-getter-live-object.diff)
+	Register(&Suite{Name: "heap.members.copied", Prop: []string{"C13"}, Fixed: heapMembersFixed,
+		Gen: func(r *rand.Rand) Case { return heapGenOps(r, heapEvent, true) }, Run: heapRun})
 }
